@@ -7,11 +7,11 @@ import Sky.C11.Model
 import Sky.Props.C31
 import Sky.Gen.Droplet
 namespace Sky.C11
-open Sky Sky.C31 Sky.Gen.Mathutil Sky.Gen.Fee Sky.Gen.CoinHours Sky.Gen.Droplet
+open Sky Sky.C31 Sky.Props.C31 Sky.Gen.Mathutil Sky.Gen.Fee Sky.Gen.CoinHours Sky.Gen.Droplet
 
 /-! ### the regenerated precision rule -/
 
-theorem iterate_mul10 : ∀ n, n ≤ 6 → Nat.iterate (fun i => wrap64 (i * 10)) n 1 = 10 ^ n := by
+theorem iterate_mul10 : ∀ n, n ≤ 6 → Nat.repeat (fun i => wrap64 (i * 10)) n 1 = 10 ^ n := by
   intro n hn
   have : n = 0 ∨ n = 1 ∨ n = 2 ∨ n = 3 ∨ n = 4 ∨ n = 5 ∨ n = 6 := by omega
   rcases this with h | h | h | h | h | h | h <;> subst h <;> decide
@@ -121,67 +121,79 @@ theorem outputHours_spec : ∀ (outs : List Out) (acc : Nat), acc < 2^64 →
     simp only [outputHours, sumOut, List.map_nil, List.sum_nil, Nat.add_zero]
     rw [if_pos hacc]
   | o :: r, acc, hacc => by
-    unfold outputHours
-    show (match specAddU64 acc o.hours with
-      | .panic p => .panic p | .err _ => .err ovfErr | .ok s => outputHours specPrims r s) = _
-    unfold specAddU64
+    simp only [outputHours, specPrims, specAddU64]
     rw [sumOut_cons]
     by_cases h : acc + o.hours < 2^64
     · simp only [h, if_true]
-      rw [outputHours_spec r (acc + o.hours) h, Nat.add_assoc]
+      have := outputHours_spec r (acc + o.hours) h
+      simp only [specPrims] at this
+      rw [this, Nat.add_assoc]
     · simp only [h, if_false]
       rw [if_neg (by omega)]
+
+/-- the accrued hours of every input are defined, and are `hs` -/
+def HoursAre (t : Nat) (ins : List In) (hs : List Nat) : Prop :=
+  ins.map (fun i => specCoinHours i.coins i.hours i.time t) = hs.map Res.ok
 
 /-- `UxArray.CoinHours` succeeds exactly when every input's accrued hours are defined and their plain
 sum fits in 64 bits, and then returns that sum -/
 theorem inputHours_ok_iff (t : Nat) : ∀ (ins : List In) (acc s : Nat), acc < 2^64 →
     (inputHours specPrims t ins acc = .ok s ↔
-      ∃ hs, List.Forall₂ (fun (i : In) h => specCoinHours i.coins i.hours i.time t = .ok h) ins hs ∧
-        s = acc + hs.sum ∧ s < 2^64)
+      ∃ hs, HoursAre t ins hs ∧ s = acc + hs.sum ∧ s < 2^64)
   | [], acc, s, hacc => by
-    simp only [inputHours]
+    simp only [inputHours, HoursAre, List.map_nil]
     constructor
-    · intro h; cases h; exact ⟨[], List.Forall₂.nil, by simp, hacc⟩
+    · intro h; cases h; exact ⟨[], rfl, by simp, hacc⟩
     · rintro ⟨hs, hf, hs2, _⟩
-      cases hf; simp at hs2; rw [hs2]
+      have : hs = [] := by cases hs with | nil => rfl | cons x r => simp at hf
+      subst this; simp at hs2; rw [hs2]
   | i :: r, acc, s, hacc => by
-    unfold inputHours
-    show (match specCoinHours i.coins i.hours i.time t with
-      | .panic p => .panic p | .err e => .err e
-      | .ok h => match specAddU64 acc h with
-        | .panic p => .panic p | .err _ => .err ovfErr | .ok s' => inputHours specPrims t r s') = .ok s ↔ _
+    simp only [inputHours, specPrims]
     cases hc : specCoinHours i.coins i.hours i.time t with
     | panic p =>
       simp only []
       constructor
       · intro h; cases h
-      · rintro ⟨hs, hf, _⟩; cases hf with | cons h1 _ => rw [hc] at h1; cases h1
+      · rintro ⟨hs, hf, _⟩
+        cases hs with
+        | nil => simp [HoursAre] at hf
+        | cons x xs => simp [HoursAre, hc] at hf
     | err e =>
       simp only []
       constructor
       · intro h; cases h
-      · rintro ⟨hs, hf, _⟩; cases hf with | cons h1 _ => rw [hc] at h1; cases h1
+      · rintro ⟨hs, hf, _⟩
+        cases hs with
+        | nil => simp [HoursAre] at hf
+        | cons x xs => simp [HoursAre, hc] at hf
     | ok h =>
-      simp only []
-      unfold specAddU64
+      simp only [specAddU64]
       by_cases hlt : acc + h < 2^64
       · simp only [hlt, if_true]
-        rw [inputHours_ok_iff t r (acc + h) s hlt]
+        have ih := inputHours_ok_iff t r (acc + h) s hlt
+        simp only [specPrims] at ih
+        rw [ih]
         constructor
         · rintro ⟨hs, hf, hs2, hs3⟩
-          exact ⟨h :: hs, List.Forall₂.cons hc hf, by simp [hs2, Nat.add_assoc], hs3⟩
+          refine ⟨h :: hs, ?_, by simp [hs2, Nat.add_assoc], hs3⟩
+          simp only [HoursAre, List.map_cons, hc] at hf ⊢
+          rw [hf]
         · rintro ⟨hs, hf, hs2, hs3⟩
-          cases hf with
-          | cons h1 hf' =>
-            rw [hc] at h1; cases h1
-            exact ⟨_, hf', by simp [hs2, Nat.add_assoc], hs3⟩
+          cases hs with
+          | nil => simp [HoursAre] at hf
+          | cons x xs =>
+            simp only [HoursAre, List.map_cons, hc, List.cons.injEq, Res.ok.injEq] at hf
+            obtain ⟨rfl, hf'⟩ := hf
+            exact ⟨xs, hf', by simp [hs2, Nat.add_assoc], hs3⟩
       · simp only [hlt, if_false]
         constructor
         · intro h'; cases h'
         · rintro ⟨hs, hf, hs2, hs3⟩
-          cases hf with
-          | cons h1 hf' =>
-            rw [hc] at h1; cases h1
+          cases hs with
+          | nil => simp [HoursAre] at hf
+          | cons x xs =>
+            simp only [HoursAre, List.map_cons, hc, List.cons.injEq, Res.ok.injEq] at hf
+            obtain ⟨rfl, _⟩ := hf
             simp at hs2; omega
 
 end Sky.C11
